@@ -146,8 +146,9 @@ def r3_tokenizer(rep, src, ginfo):
     gnames = [ginfo[g]['name'] for g in order]
     NONL = r'[^\n]'
 
-    def interpret(line, groups, mode, carried, cache=None, heap=None, strI=None):
-        """-> ('raise', exc, line) | ('tokens', [token text ...], heap, env)"""
+    def interpret(line, groups, mode, carried, cache=None, heap=None, strI=None, upcoming=None):
+        """-> ('raise', exc, line) | ('tokens', [token text ...], heap, env).  upcoming: the (decided) lines that follow in the stream;
+        takewhile / peek answer from them, and what takewhile took is left in `upcoming['taken']`"""
         def field_match(it, args, kw):
             if groups is None:
                 return None
@@ -176,11 +177,24 @@ def r3_tokenizer(rep, src, ginfo):
                  '.groups': lambda it, a, k: tuple(it.h.objs[a[0].name]['groups']), '.group': group, '.groupdict': groupdict,
                  '.peek': lambda it, a, k: None, '.peek_at': lambda it, a, k: None, '.takewhile': lambda it, a, k: it.h.new_list([]),
                  '.peek_many': lambda it, a, k: it.h.new_list([])}
+        if upcoming is not None:
+            def takewhile(it, a, k):
+                out_ = []
+                while upcoming['lines'] and it.truth(it.apply(a[1], [upcoming['lines'][0]])):
+                    out_.append(upcoming['lines'].pop(0))
+                upcoming['taken'] += out_
+                return it.h.new_list(out_)
+            hooks['.takewhile'] = takewhile
+            hooks['.peek'] = lambda it, a, k: upcoming['lines'][0] if upcoming['lines'] else None
+            hooks['.peek_at'] = lambda it, a, k: upcoming['lines'][a[1] - 1] if isinstance(a[1], int) and 0 < a[1] <= len(upcoming['lines']) else None
+            hooks['.peek_many'] = lambda it, a, k: it.h.new_list(list(upcoming['lines'][:a[1]]) if isinstance(a[1], int) else [])
         if strI is not None:
             hooks['_strI'] = strI
         if heap is None:
             heap = H.Heap(mod, hooks=hooks)
             heap.symbolic_strings = True
+            if upcoming is not None:
+                heap.native_regex = True
         else:
             heap.hooks.update(hooks)
         it = H.Interp(heap)
@@ -193,6 +207,19 @@ def r3_tokenizer(rep, src, ginfo):
             env[d_] = cache if cache is not None else heap.new_dict()
         for s_ in streams:
             env[s_] = heap.alloc('Stream', {})
+        # what else the function sets up before the loop (a helper chosen by the input mode, a cache object of a class of the module):
+        # executed as written, in the environment of this case.  Statements that set the mode flag or the carried state -- the case
+        # fixes them -- and those that cannot be interpreted are left out (a use of an unbound name is then undecided, not wrong).
+        fixed_ = {roles['flag'], roles['carried'][0]} | set(dicts if cache is not None else ()) | set(streams)
+        for st_ in pre:
+            tg_ = {n_.id for n_ in ast.walk(st_) if isinstance(n_, ast.Name) and isinstance(n_.ctx, ast.Store)}
+            if isinstance(st_, (ast.FunctionDef, ast.Expr)) or not tg_ or (tg_ & fixed_) or tg_ <= set(env):
+                continue
+            try:
+                it.exec(st_, env, None)
+            except (AnalysisError, H.Raised, symstr.Undecided):
+                for n_ in tg_:
+                    env.pop(n_, None) if n_ not in fixed_ else None
         for n_ in ast.walk(loop.target):
             if isinstance(n_, ast.Name):
                 env[n_.id] = line if n_.id == roles['line'] else 1
@@ -287,6 +314,38 @@ def r3_tokenizer(rep, src, ginfo):
             else:
                 rep.ok('C01.R3', f.site, what, '%d symbolic cases conserve the line' % n)
     rep.analysed['paths'] += total
+    # runs of whitespace-only lines: the loop body may take following lines out of the stream and put them into the token of the
+    # current one.  Interpreted on decided streams (the current line whitespace-only, then terminated / unterminated whitespace-only
+    # lines and a field line): whatever is taken, the token texts are the current line plus the taken lines -- each with the line
+    # end this input mode supplies -- and no token constructor refuses its text (a whitespace token that contains a newline ends on
+    # one).  How MANY lines are taken is not prescribed.
+    la_cases = [(False, ' \n', [' \n', '\t\n', 'A: b\n']), (False, '\n', ['\n', '  ']), (False, ' \n', ['  ']), (False, '\n', ['\n', '\n', '']),
+                (False, ' \n', ['A: b\n', ' \n']), (False, '\t\n', []),
+                (True, ' ', [' ', '\t', 'A: b']), (True, '', ['', '  ']), (True, ' ', [' \n', ' ']), (True, '\t', ['A: b', ' ']), (True, ' ', [])]
+    for mode, cur, following in la_cases:
+        for carried in (None, H.Key('earlier-field', 'Earlier-Field')):
+            up = {'lines': list(following), 'taken': []}
+            what = 'a run of whitespace-only lines (%s input, current line %r, then %r%s)' % ('no-newline' if mode else 'newline-terminated', cur, following,
+                                                                                             ', inside a field' if carried is not None else '')
+            r = interpret(cur, None, mode, carried, upcoming=up)
+            if r[0] == 'raise':
+                rep.fail('C01.R6', f.site, what, 'raises %s (line %d) after taking %r out of the stream: the look-ahead merges a line that makes the token invalid (a final line '
+                         'without newline in the newline-terminated mode, a line that already has one in the no-newline mode)' % (r[1], r[2], up['taken']), where=f.where)
+                continue
+            got = ''
+            for t in r[1]:
+                t = t.spelling if isinstance(t, H.Key) else t
+                t = t.concrete() if isinstance(t, SStr) else t
+                if not isinstance(t, str):
+                    raise AnalysisError('%s: undecided token text %r on a decided line' % (f.site, t))
+                got += t
+            eol = '\n' if mode else ''
+            want = cur + eol + ''.join(x + eol for x in up['taken'])
+            if got == want:
+                rep.ok('C01.R6', f.site, what, 'tokens %r; %d line(s) taken from the stream' % (got, len(up['taken'])), nontrivial=bool(following))
+            else:
+                rep.fail('C01.R6', f.site, what, 'the token texts are %r; the current line and the %d line(s) taken from the stream (%r) are %r: the tokens no longer tile the input'
+                         % (got, len(up['taken']), up['taken'], want), where=f.where)
     # the field-name memo: after a field has been seen, the same field in another spelling is still emitted in its own spelling
     # (two iterations on decided lines, case-insensitive keys modelled by the interpreter)
     if dicts:
@@ -603,12 +662,26 @@ def r6_whitespace_merge(rep, src, loop):
                 ce = _closure_expr(f, pred.id)
                 if ce is not None:
                     pv, body = ce[0], paths.subst(ce[1], {k: v for k, v in env.items() if k != ce[0]})
+            Lp = None
             if body is None:
+                # the bound method of a compiled pattern, given directly or through a local the preamble binds per input mode
+                pe = env.get(pred.id) if isinstance(pred, ast.Name) else pred
+                if isinstance(pe, ast.Attribute) and pe.attr in ('match', 'fullmatch', 'search') and isinstance(pe.value, ast.Name):
+                    try:
+                        r_ = src.regex(TK, pe.value.id)
+                    except AnalysisError:
+                        r_ = None
+                    if r_ is not None:
+                        rep.saw_regex('tokens:' + pe.value.id)
+                        Lp = rx.regex_lang(r_['pattern'], r_['flags'], pe.attr, alpha=alpha)
+            if body is None and Lp is None:
                 raise AnalysisError('%s: the look-ahead predicate %s is not an expression-bodied lambda/closure' % (f.site, norm(pred)))
-            body = paths.simplify(body, folder)
-            Lp = strlang.pred_lang(body, pv, alpha, atom=regex_atom(pv))
+            if Lp is None:
+                body = paths.simplify(body, folder)
+                Lp = strlang.pred_lang(body, pv, alpha, atom=regex_atom(pv))
             if kind not in ('expr', 'loop'):
-                problems.append('%s: the look-ahead lines are not appended to the token with an empty separator' % mname)
+                # the way the taken lines reach the token is not one of the shapes read here: decided by the interpreted runs (C01.R6 in
+                # r3_tokenizer: the tokens tile the current line and the taken lines in both input modes)
                 continue
             # element transform: var, var + const -- or one of these chosen by a test on the line (`x if x.endswith(c) else x + c`)
             def suffix_of(e2):
